@@ -111,7 +111,7 @@ ExecClass(r, i) ==
 
 RECURSIVE RangeTry(_, _, _)
 RangeTry(r, i, k) ==                 \* MATCHRANGE: lengths from Len(b) down to Len(a)
-  IF k < Len(i.a) THEN Backtrack(r)
+  IF k < Len(i.a) \/ k < 1 THEN Backtrack(r)
   ELSE IF CanRead(r, k) /\ LexLE(i.a, Peek(r, k)) /\ LexLE(Peek(r, k), i.b) THEN NextPc(Consume(r, k))
   ELSE RangeTry(r, i, k - 1)
 ExecRng(r, i) == RangeTry(r, i, Len(i.b))
@@ -319,6 +319,11 @@ NoStuck ==
 StepBound == steps <= MaxSteps
 
 Terminates == <>(phase = "done")
+
+(* the machine as oracle: the result list and the instruction count of each  *)
+(* finished run                                                             *)
+EmitDone ==
+  phase = "done" => PrintT(ToJson([id |-> Cases[ci].id, t |-> Text, ms |-> out, steps |-> steps]))
 
 TypeOK ==
   /\ phase \in {"attempt", "between", "done"}
